@@ -78,6 +78,21 @@ def gen_case(rng: Rng, i: int, tier: str):
         if r.chance(0.3):
             r.shuffle(chain)
         entries = chain + (entries[:1] if r.chance(0.3) else [])
+    elif r.chance(0.25):
+        # directed: a link through which a later link's TARGET climbs ('l -> .', then 'x -> l/..'), placed under an alias
+        # of an earlier file's name ('b/../f') so that the file's post-pass utime/chmod follows it
+        l = r.pick(["l", "a", "b"])
+        t1 = r.pick([".", "./.", "a/.."])
+        f = r.pick(["f", "c", "x"])
+        alias = r.pick([f, "b/../" + f, "./" + f, "q/../" + f, f])
+        t2 = r.pick([l + "/..", l + "/../..", l + "/../x", l + "/../${JAILNAME}/..", l + "/../newfile"])
+        sc = [{"name": l, "kind": "symlink", "target": t1}, {"name": f, "kind": r.pick(["file", "dir"]), "data": "payload-f"},
+              {"name": alias, "kind": "symlink", "target": t2}]
+        if r.chance(0.5):
+            sc.append({"name": r.pick([alias, f, "b/../" + f]) + r.pick(["", "/evil"]), "kind": "file", "data": "payload-g"})
+        if r.chance(0.2):
+            r.shuffle(sc)
+        entries = sc + (entries[:1] if r.chance(0.3) else [])
     elif r.chance(0.2):
         # directed: the same name several times (py7zr renames later duplicates), including names that canonicalise to the
         # destination itself, and a directory later replaced by a link of the same name
